@@ -71,8 +71,8 @@ def ammoOne (fmt : String) (data : Bytes) : Option Run :=
   | some a, some b =>
     if a != b then none
     else if !(a.entries.all fun e => fmt == "raw" || safeUri e.uri) then none
-    -- an unterminated non-blank last line is dropped by the raw decoder (C07's subject): not predicted here
-    -- (the uripost decoder decodes it, and the model follows: its `rest` is always empty)
+    -- (both size-prefixed decoders decode an unterminated last line - raw since dbbf16d - and the models follow: `rest` is
+    -- empty whenever the run ends well, so this abstention is never taken any more)
     else if fmt != "uri" && a.end_ == .ok && !(trimSpace a.rest).isEmpty then none
     else if fmt == "uri" && data.length ≥ 65536 then none
     else some a
